@@ -143,32 +143,10 @@ pub fn run_block<const NB: usize>(max: usize) {
 mod proofs {
     use super::*;
 
-    // the verdict sequence of the step model is a per-harness constant (symbolic verdicts: 12.5 GB, out of
-    // memory); the step limit is symbolic in 0..=N+1
-    macro_rules! loops { ($($name:ident = <$n:literal>, $verdicts:expr;)*) => {$(
-        #[kani::proof]
-        #[kani::unwind(7)]
-        #[kani::stub(std::hash::RandomState::new, crate::c01_loop::fixed_random_state)]
-        #[kani::stub(<push::push_vm::program::PushProgram as push::instruction::Instruction<push::push_vm::push_state::PushState>>::perform, crate::c01_loop::perform_model)]
-        fn $name() {
-            let limit: usize = kani::any();
-            kani::assume(limit <= $n + 1);
-            run_loop::<$n>(limit, $verdicts);
-            crate::witness!(limit == 0, "WITNESS step limit 0");
-            crate::witness!(limit == $n + 1, "WITNESS limit larger than the program");
-        }
-    )*}; }
-    loops! {
-        c01_t_loop_n1_ok = <1>, [0, 0, 0, 0, 0, 0];
-        c01_t_loop_n1_rec = <1>, [1, 0, 0, 0, 0, 0];
-        c01_t_loop_n1_fatal = <1>, [2, 0, 0, 0, 0, 0];
-        c01_t_loop_n2_ok_ok = <2>, [0, 0, 0, 0, 0, 0];
-        c01_t_loop_n2_rec_ok = <2>, [1, 0, 0, 0, 0, 0];
-        c01_t_loop_n2_rec_rec = <2>, [1, 1, 0, 0, 0, 0];
-        c01_t_loop_n2_ok_fatal = <2>, [0, 2, 0, 0, 0, 0];
-        c01_t_loop_n2_fatal_ok = <2>, [2, 0, 0, 0, 0, 0];
-        c01_t_loop_n3_ok_rec_ok = <3>, [0, 1, 0, 0, 0, 0];
-    }
+    // (LOOP on the real PushState was measured and dropped: even with a stubbed step, concrete verdicts
+    // and a symbolic limit CBMC exhausts 14 GB -- moves / boxes of the whole PushState on every path.
+    // The LOOP lemma is decided by bin/mirloop on the MIR instead; run_loop / perform_model above are kept
+    // for reference and are not compiled into any harness.)
 
     macro_rules! blocks { ($($name:ident = <$nb:literal>, $max:expr;)*) => {$(
         #[kani::proof]
